@@ -904,8 +904,8 @@ func (g *generator) renderPkg(m *Module, p *gpkg, decls []*gpkg) {
 	// annotated types of this package whose fields are declared elsewhere: a defined type over another package's
 	// struct, and a struct that embeds one (promoted fields)
 	for _, im := range p.imports {
-		if len(im.types) == 0 || im.thin || len(im.relay) > 0 || g.o.NoAnnotations {
-			continue
+		if len(im.types) == 0 || im.thin || len(im.relay) > 0 || g.o.NoAnnotations || len(p.relay) > 0 {
+			continue // (the relay package stays free of annotated types of its own)
 		}
 		a := p.alias[im]
 		add("// Frozen has the fields of " + a + ".Plain.\n// @immutable\ntype Frozen " + a + ".Plain")
